@@ -12,6 +12,7 @@ pub mod props {
     pub mod c02;
     pub mod c04;
     pub mod c05;
+    pub mod c11;
     pub mod c13;
     pub mod c14;
     pub mod c15;
@@ -57,6 +58,7 @@ pub fn dispatch() -> Vec<(&'static str, RunFn, ReplayFn)> {
         ("C04", props::c04::run, props::c04::replay),
         ("C05", props::c05::run_c05, props::c05::replay_c05),
         ("C06", props::c05::run_c06, props::c05::replay_c06),
+        ("C11", props::c11::run, props::c11::replay),
         ("C13", props::c13::run, props::c13::replay),
         ("C14", props::c14::run, props::c14::replay),
         ("C15", props::c15::run, props::c15::replay),
